@@ -103,6 +103,12 @@ pub uninterp spec fn sorted(cids: Seq<Rc<CidRef>>) -> Seq<Rc<CidRef>>;
 #[verifier::external_body]
 pub fn sort_unstable(cids: &mut Vec<Rc<CidRef>>) ensures final(cids)@ == sorted(old(cids)@) { unimplemented!() }
 
+// `Vec::dedup` (not used by the code; given a specification so that a change which "canonicalises" the multiset into a set before
+// signing is DECIDED -- the signed object is then deduped(sorted(..)), not sorted(..) -- instead of leaving the unit out of reach; seed3-C03)
+pub uninterp spec fn deduped<T>(s: Seq<T>) -> Seq<T>;
+pub assume_specification<T: PartialEq, A: core::alloc::Allocator>[ Vec::<T, A>::dedup ](v: &mut Vec<T, A>)
+    ensures final(v)@ == deduped(old(v)@);
+
 // the signature C03 demands for a set of registered cids: Ed25519 of the salted, sorted cids
 pub open spec fn sig_of(cids: Seq<Rc<CidRef>>, salt: Seq<char>, k: fluence_keypair::KeyPair) -> Result<fluence_keypair::Signature, SigningError> {
     ed_sign(k, salted(sorted(cids), salt))
